@@ -121,7 +121,7 @@ impl Fmt {
         s
     }
 
-    fn show_blocks(&self, bs: &[(Vec<u8>, Vec<u8>)], by_prefix: bool) -> String {
+    pub fn show_blocks(&self, bs: &[(Vec<u8>, Vec<u8>)], by_prefix: bool) -> String {
         let v: Vec<String> = bs
             .iter()
             .map(|(c, d)| {
